@@ -139,9 +139,19 @@ def read_stream(loop, H, chunks, schedule):
     return _read_alone(loop, reader, consume, chunks, schedule, results)
 
 
+_LOOPS = [0]
+
+
 async def _consume(H, R, results):
+    # every fourth consumer is written around the wrapper's at_eof() helper (`while not reader.at_eof(): await reader.read()`)
+    # instead of reading until the end-of-stream error; at a clean end both see the same messages
+    _LOOPS[0] += 1
+    by_helper = _LOOPS[0] % 4 == 0
     if True:
         while True:
+            if by_helper and R.at_eof():
+                results.append(("eof",))
+                return
             try:
                 m = await R.read()
             except H.IncompleteReadError:
